@@ -4,6 +4,7 @@ From Coq Require Import List Arith.
 Import ListNotations.
 From V Require Import Model.Align Proofs.AlignValid Proofs.AlignProofs.
 From V Require Import Model.SnapOps Model.TreeAssign Proofs.TreeAssignProofs.
+From V Require Import Proofs.TreeAssignConfluence.
 
 (* the script computed for (old, new) is a valid edit script: it consumes both sequences exactly and
    marks `m` only on equal pairs, for an arbitrary (not necessarily transitive or symmetric) == *)
@@ -58,6 +59,16 @@ Theorem C11_tree_noflags_identity :
   f_fix F = false -> f_update F = false -> verbatim (assign_tree F o n) = Some o.
 Proof. exact tree_noflags_identity. Qed.
 
+(* the equal common prefix of an edited nested container keeps its whole source text *)
+Theorem C11_tree_prefix_verbatim :
+  forall (f : nat) (F : flags) (k : skind) (olds : list tree) (news : list val),
+  f_update F = false ->
+  let c := Align.common_prefix tree val elt_eqb olds news in
+  exists items : list rtree,
+  assign (S f) F (TSeq k olds) (VSeq k news) = RSeq k items /\
+  verbatim_list (firstn c items) = Some (firstn c olds).
+Proof. exact tree_prefix_verbatim. Qed.
+
 Print Assumptions C11_align_valid.
 Print Assumptions C11_add_x_valid.
 Print Assumptions C11_align_prefix_m.
@@ -69,3 +80,4 @@ Print Assumptions C11_nw_optimal.
 Print Assumptions C11_align_no_i_then_d.
 Print Assumptions C11_tree_equal_keeps_text.
 Print Assumptions C11_tree_noflags_identity.
+Print Assumptions C11_tree_prefix_verbatim.
